@@ -312,6 +312,22 @@ func c11RandomCase(rng *rand.Rand) obj {
 	case 3:
 		p = obj{}
 	}
+	if len(dims) >= 2 && rng.Intn(5) == 0 {
+		// boundary-shifted tuples: the permutation and an adjustment agree once their values are strung together
+		// (with a separator that also occurs INSIDE the values), but differ dimension by dimension
+		ds := append([]string{}, dims...)
+		sort.Strings(ds)
+		sep := []string{",", "|", " ", "/", ":", ";", "\x00", "="}[rng.Intn(8)]
+		w, q := obj{}, obj{}
+		for _, d := range ds {
+			w[d], q[d] = "m", "m"
+		}
+		w[ds[0]], w[ds[1]] = "a"+sep+"b", "c"
+		q[ds[0]], q[ds[1]] = "a", "b"+sep+"c"
+		sk := []string{"absent", "true", "string"}[rng.Intn(3)]
+		adjs = append(adjs, obj{"with": w, "skip": sk})
+		p = q
+	}
 	m := obj{"nil": false, "setup": setup, "adjs": adjs}
 	if rng.Intn(25) == 0 {
 		m = obj{"nil": true, "setup": obj{}, "adjs": []any{}}
